@@ -15,7 +15,9 @@ E0 == { L1, Id("x"), Id("y"), Asg("x", L2), Bin("+", Id("x"), L1), Bin("+", Par(
         Asg("x", Bin("+", Id("x"), L1)), Bin("+", Asg("f", L2), Id("f")), Asg("x", Asg("f", Asg("y", Bin("+", Id("x"), L1)))) }   \* x = f = y = x + 1
 S0 == { SVar("x", FALSE, NoE), SVar("y", FALSE, NoE) } \cup { SVar(n, TRUE, e) : n \in {"x", "y"}, e \in E0 }
         \cup { SPrint(e) : e \in E0 } \cup { SEval(e) : e \in {Asg("x", L2), Asg("y", Bin("+", Id("x"), L1))} }
-InB == S0 \cup { SExpr(e) : e \in E0 }
+\* a short-circuit whose skipped right operand ends in an assignment, directly in front of whatever reads the variable next
+SC == { SEval(Bin("and", Lit(BoolV(FALSE)), Par(Asg("x", L2)))), SEval(Bin("or", L1, Par(Asg("x", L2)))) }
+InB == S0 \cup { SExpr(e) : e \in E0 } \cup SC
 Inner == { SDef("b", nm, Opt(s)) : nm \in {"", "n"}, s \in InB \cup {None} }
 Item == InB \cup Inner
 Firsts == {None} \cup { SVar("x", TRUE, L1), SVar("y", FALSE, NoE), SVar("x", TRUE, Bin("+", Id("x"), L1)), SPrint(Id("x")) }
@@ -38,6 +40,7 @@ BBodies == { <<>>, <<FA>>, <<FA, FB>>, <<GT>>, <<GN>>, <<VX, GX>>, <<Child("")>>
              <<SDef("c", "", <<SDef("a", "n", <<GN>>)>>)>>, <<Boom>>, <<FA, Boom>>,
              <<Child0("n"), Child("m")>>, <<Child0(""), Child("n")>>, <<Child0("n")>>, <<FC, Child0("")>>, <<FC, Child("n")>>,
              <<SDef("c", "n", <<Child0("")>>), SDef("c", "m", <<SDef("a", "", <<FA>>)>>)>>,
+             <<SDef("c", "", <<GN>>)>>,                     \* NAME read in an unnamed block inside a (possibly named) one: the innermost block's own, empty name
              <<SExpr(Asg("TYPE", L1)), GT>>, <<SExpr(Asg("NAME", L2)), GN, SDef("c", "n", <<GN, GT>>)>> }   \* fields named TYPE / NAME never shadow the built-ins
 TopB == { SDef(t, nm, b) : t \in {"a", "b"}, nm \in {"", "n"}, b \in BBodies } \cup { Boom, SPrint(L1), SBind("b", "last", "struct"), SBind("a", "all", "slice") }
         \cup { SDef("a", "Q", <<GN>>), SDef("b", "H", <<GN, Child("Q")>>), SDef("a", "n", <<Child("Q"), Child("Q")>>) }   \* names whose literals need escapes
